@@ -55,10 +55,18 @@ inductive Pkg where
   | dir (members : List (Nat × Bytes))
   deriving DecidableEq, Repr, Inhabited
 
-inductive Impl where
-  | inplace  -- the code that exists
-  | staged   -- temp file + rename
+/-- which code is modelled: `staged` = tag / package written to a temporary sibling and renamed
+(fixes/C05-atomic-tag-package.diff), `keyFirst` = `Project.put` compares the project key with the manifest
+name before anything else (fixes/C05-project-key-check.diff) -/
+structure Impl where
+  staged : Bool
+  keyFirst : Bool
   deriving DecidableEq, Repr, Inhabited
+
+/-- the code that exists -/
+def Impl.existing : Impl := ⟨false, false⟩
+/-- the code with both repairs -/
+def Impl.repaired : Impl := ⟨true, true⟩
 
 /-! ### registry calls as micro-op lists (posix.Registry) -/
 
@@ -68,10 +76,9 @@ def writeOps (fs : Fs) (p v sid : Nat) (b : Bytes) : List Op :=
 
 /-- the tag write at the end of `Registry.close` -/
 def tagWriteOps (impl : Impl) (p v g : Nat) (t : Tag) : List Op :=
-  match impl with
-  | .inplace => [.createEmpty (tagP p v g), .append (tagP p v g) (encodeTag t)]
-  | .staged => [.createEmpty (tagTmpP p v g), .append (tagTmpP p v g) (encodeTag t),
-                .rename (tagTmpP p v g) (tagP p v g)]
+  if impl.staged then
+    [.createEmpty (tagTmpP p v g), .append (tagTmpP p v g) (encodeTag t), .rename (tagTmpP p v g) (tagP p v g)]
+  else [.createEmpty (tagP p v g), .append (tagP p v g) (encodeTag t)]
 
 /-- `Registry.close`: mkdir of the generation; per state `source.exists()` (a missing source makes the
 `rename` step fail = `Level.Invalid` raised at that point) and `source.rename(target)`; then the tag. -/
@@ -83,15 +90,14 @@ def closeOps (impl : Impl) (fs : Fs) (p v g : Nat) (t : Tag) : List Op :=
 /-- the package write of `Registry.push` below the release directory -/
 def packageWriteOps (impl : Impl) (p v : Nat) : Pkg → List Op
   | .file b =>
-    match impl with
-    | .inplace => [.createEmpty (packageP p v), .append (packageP p v) b]
-    | .staged => [.createEmpty (packageTmpP p v), .append (packageTmpP p v) b,
-                  .rename (packageTmpP p v) (packageP p v)]
+    if impl.staged then
+      [.createEmpty (packageTmpP p v), .append (packageTmpP p v) b, .rename (packageTmpP p v) (packageP p v)]
+    else [.createEmpty (packageP p v), .append (packageP p v) b]
   | .dir ms =>
-    match impl with
-    | .inplace => .mkdir (packageP p v) :: ms.map (fun m => .copyFile (packageP p v ++ [.member m.1]) m.2)
-    | .staged => .mkdir (packageTmpP p v) :: ms.map (fun m => .copyFile (packageTmpP p v ++ [.member m.1]) m.2)
-                  ++ [.rename (packageTmpP p v) (packageP p v)]
+    if impl.staged then
+      .mkdir (packageTmpP p v) :: ms.map (fun m => .copyFile (packageTmpP p v ++ [.member m.1]) m.2)
+        ++ [.rename (packageTmpP p v) (packageP p v)]
+    else .mkdir (packageP p v) :: ms.map (fun m => .copyFile (packageP p v ++ [.member m.1]) m.2)
 
 /-- `Registry.push`: `path.parent.mkdir(parents=True, exist_ok=True)`; `write_bytes` / `copytree` -/
 def pushOps (impl : Impl) (fs : Fs) (p v : Nat) (pkg : Pkg) : List Op :=
@@ -166,9 +172,11 @@ inductive Err where
 
 /-- `Project.put` before `registry.push`: `self.list().last` raises `Level.Invalid` (through `Level.key`)
 when the project is not listed and `Listing.Empty` when it has no release — both mean "no previous";
-otherwise the names must match and the version must be greater than the last (= greatest) one. -/
-def publishGuard (fs : Fs) (dirProj name v : Nat) : Option Err :=
-  if projListed fs dirProj then
+otherwise the names must match and the version must be greater than the last (= greatest) one.
+(The code that exists therefore checks nothing when `dirProj` is not listed, even if `name` is.) -/
+def publishGuard (impl : Impl) (fs : Fs) (dirProj name v : Nat) : Option Err :=
+  if impl.keyFirst && name != dirProj then some .mismatch
+  else if projListed fs dirProj then
     match maxOf (releasesOf fs dirProj) with
     | none => none
     | some prev => if name ≠ dirProj then some .mismatch else if prev < v then none else some .invalid
@@ -206,7 +214,7 @@ def Outcome.call (o : Outcome) (ops : Fs → List Op) : Outcome :=
 /-- one step of a history on the tree `fs` -/
 def exec (impl : Impl) (fs : Fs) : Step → Outcome
   | .publish dp name v pkg =>
-    match publishGuard fs dp name v with
+    match publishGuard impl fs dp name v with
     | some e => ⟨fs, [], some e⟩
     | none => (Outcome.mk fs [] none).call (fun fs => pushOps impl fs name v pkg)
   | .train p v ord states =>
